@@ -321,6 +321,10 @@ Definition check_conc_case (c : conc_case) : Z :=
    state must be what it was.  Observations and snapshot of the child, snapshot of the parent. *)
 Inductive chop := HMalloc (n : Z) | HFreeOwn (k : nat) | HFreeInherited (k : nat).
 
+(* arenas are objects: an arena of the parent is none of the arenas the child creates after the
+   re-initialisation, whatever its position in the parent's list was *)
+Definition inherited_block (b : block) : block := (-1 - b_arena b, b_start b, b_stop b).
+
 Fixpoint child_run (pg dsize : Z) (st : option heap) (inherited : heap) (pgot got : list block) (ops : list chop)
   : list iobs * option heap :=
   match ops with
@@ -334,7 +338,7 @@ Fixpoint child_run (pg dsize : Z) (st : option heap) (inherited : heap) (pgot go
       | HFreeInherited k, None =>
           do h' <- free_in_child_before_malloc inherited (nth k pgot none_block); OK (none_block, h', got)
       | HFreeOwn k, Some h => do h' <- free h (nth k got none_block); OK (none_block, h', got)
-      | HFreeInherited k, Some h => do h' <- free h (nth k pgot none_block); OK (none_block, h', got)
+      | HFreeInherited k, Some h => do h' <- free h (inherited_block (nth k pgot none_block)); OK (none_block, h', got)
       end in
     match res1 with
     | Err _ => ([(true, none_block, -1, -1)], None)
